@@ -86,12 +86,16 @@ def run(tier, seed):
     its = items(tier)
     col = stepcheck.explore(its, MONS, H, D, who_fn=lambda sp: stepcheck.default_who(sp, facilities=False), seed=seed)
     col.merge(stepcheck.explore(stepcheck.edited_items(), MONS, 0, 0, seed=seed))  # runs after an earlier run and an in-place model edit
+    # a project stopped at step k and started again with the states reset and the logs kept (the new life cycle is appended to the old records)
+    linked = [it for it in its if it[0]["links"] and it[1]["rule"] == "TSLACK" and not it[1].get("auto_abs")]
+    rs = stepcheck.restarted_items(linked[:: (4 if tier == "quick" else 1)], ks=(1, 2, 3, 4))
+    col.merge(stepcheck.explore(rs, MONS, 0, 0, seed=seed))
     meta = {
         "level": "model_checking",
         "rule": "every workflow on 3 tasks (thorough: also 4) with each pair i<j unlinked or linked FS/SS/FF/SF x work vectors (incl. zero-work milestone tasks, manual and automatic) x team layouts x task rules "
         "x progress/auto/order variants, each explored over all per-step absence answers (project-wide or one worker) up to horizon H with at most D "
         "non-default answers, state-merged at choice points; non-trivial = distinct (model, task, predecessor-state vector) combinations at which a start or finish gate of a task with predecessors was evaluated",
-        "bounds": {"H": H, "D": D, "base_models": len(its)},
+        "bounds": {"H": H, "D": D, "base_models": len(its), "restarted(states reset, logs kept) at step 1..4": len(rs)},
         "assumptions": ["deterministic skills (sd 0)", "state merging at 'updated' phases is sound (checked against unmerged exploration in tools/selftest)"],
         "exhaustive": True,
     }
